@@ -650,7 +650,8 @@ class RectGrid(Set):
                 # vec_s. If there is no almost zero entry in each row,
                 # return False.
                 vec_o_mg, vec_s_mg = sparse_meshgrid(vec_o, vec_s)
-                if not np.all(np.any(np.isclose(vec_s_mg, vec_o_mg, atol=atol),
+                if not np.all(np.any(np.isclose(vec_s_mg, vec_o_mg, atol=atol,
+                                                rtol=0.0),
                                      axis=0)):
                     return False
             return True
